@@ -595,7 +595,9 @@ class ProjHistory(Part):
 
     def harness(self, chk):
         for pi in range(len(self.projects)): self.base_of(chk, pi)
-        def h(ctx): self.run(chk, ctx, SymInputs(ctx))
+        def h(ctx):
+            ctx.step_limit = max(ctx.step_limit, 60_000_000)
+            self.run(chk, ctx, SymInputs(ctx))
         return h
 
     # ---- native side
